@@ -318,6 +318,42 @@ func judge(m *mp.Model, doc *c02.ClassF, rs ruleSet, impl []implPage, seed uint6
 		}
 	}
 
+	// J7b: the same for border boxes — a block's bottom padding / border may extend below the content box
+	// of the page only if no legal break exists before the box's last line on that page
+	for i, p := range impl {
+		if len(p.lines) == 0 {
+			continue
+		}
+		bottom := p.geom[5] + p.geom[6]
+		for _, b := range p.boxes {
+			if b.borderBottom <= bottom+geomTol {
+				continue
+			}
+			w, ok := at[b.lastTok]
+			if !ok || w.page != i {
+				continue
+			}
+			for j := 1; j <= w.pos; j++ {
+				if ok, why := legalBetween(i, p.lines[j-1].Tok, p.lines[j].Tok); ok {
+					key := "border-box"
+					if b.firstTok == p.lines[0].Tok {
+						// the box is the first thing on the page: it is laid out with pageIsEmpty, the second
+						// layout with more bottom space is not attempted
+						key = "border-box-first-on-page"
+					} else if w.y+20+b.deco <= bottom+geomTol {
+						// the last line plus the box's own bottom decoration would fit: what pushes the border
+						// out is a bottom margin (or decoration) of the box's last descendants
+						key = "border-box-trailing-margin"
+					}
+					add("no-overflow-if-legal-break", key, fmt.Sprintf("page %d: the border box of the block ending with %s extends to y=%v, below the content box (bottom %v), although a legal break exists %s",
+						i, c02.Tok(b.lastTok), b.borderBottom, bottom, why))
+					break
+				}
+			}
+			break
+		}
+	}
+
 	// J8 avoid_honoured_if_possible: a page may end at a point where breaking is to be avoided
 	// (break-before/after/inside: avoid, orphans, widows) only if no conforming break exists on that page
 	for i, p := range impl {
